@@ -376,8 +376,26 @@ func (x *extractor) parseFCall(b *ast.BlockStmt, key string) (lts.Term, bool) {
 	}
 	// growth
 	ifs, ok := list[i].(*ast.IfStmt)
-	if !ok || ifs.Init != nil || ifs.Else != nil || len(ifs.Body.List) != 1 {
+	if !ok || ifs.Else != nil || len(ifs.Body.List) != 1 {
 		return lts.Term{}, false
+	}
+	if ifs.Init != nil {
+		// `if n := <linear expression>; …`: n stands for that expression in the condition and the size
+		as, ok := ifs.Init.(*ast.AssignStmt)
+		if !ok || as.Tok != token.DEFINE || len(as.Lhs) != 1 || len(as.Rhs) != 1 {
+			return lts.Term{}, false
+		}
+		id, ok := as.Lhs[0].(*ast.Ident)
+		if !ok || x.info.Defs[id] == nil {
+			return lts.Term{}, false
+		}
+		if _, ok := x.lin(as.Rhs[0]); !ok {
+			return lts.Term{}, false
+		}
+		if x.aliases == nil {
+			x.aliases = map[types.Object]ast.Expr{}
+		}
+		x.aliases[x.info.Defs[id]] = as.Rhs[0]
 	}
 	gbe, ok := ast.Unparen(ifs.Cond).(*ast.BinaryExpr)
 	if !ok {
@@ -515,6 +533,9 @@ func (x *extractor) lin(e ast.Expr) (linarith.Form, bool) {
 	switch e := e.(type) {
 	case *ast.Ident:
 		o := x.obj(e)
+		if al, ok := x.aliases[o]; ok && o != nil {
+			return x.lin(al)
+		}
 		if v, ok := o.(*types.Var); ok {
 			if b, ok := v.Type().Underlying().(*types.Basic); ok && b.Info()&types.IsInteger != 0 {
 				return linarith.Var(x.sym(v)), true
